@@ -24,7 +24,7 @@ import DymVerif.Lemmas.CoreLiveness
 import DymVerif.Lemmas.GenEqArith
 import DymVerif.Lemmas.CoreLevFork
 namespace DymVerif.C08
-open DymVerif DymVerif.Core
+open DymVerif DymVerif.Core DymVerif.Core.LevNs
 
 /-- a rejected message leaves the state untouched -/
 theorem reject_unchanged (s : St) (o : Op) (e : Err) (h : (step s o).2 = some e) : (step s o).1 = s := by
